@@ -3,12 +3,17 @@
 package gen
 
 import (
+	"crypto"
+	"crypto/rand"
+	"crypto/sha256"
 	"encoding/binary"
 	"encoding/json"
 	"errors"
 	"flag"
 	"fmt"
+	"hash"
 	"hash/fnv"
+	"math/big"
 	"os"
 	"path/filepath"
 	"runtime"
@@ -80,11 +85,13 @@ type replayFile struct {
 	Error    string `json:"error,omitempty"`
 	Class    string `json:"class,omitempty"`
 	// Platform of the process that found the failure; the driver replays under the same one.
-	GOARCH     string          `json:"goarch,omitempty"`
-	GOMAXPROCS int             `json:"gomaxprocs,omitempty"`
-	RaceBuild  bool            `json:"race_build,omitempty"`
-	AltBuild   bool            `json:"alt_build,omitempty"`
-	Case       json.RawMessage `json:"case"`
+	GOARCH     string            `json:"goarch,omitempty"`
+	GOMAXPROCS int               `json:"gomaxprocs,omitempty"`
+	NumCPU     int               `json:"num_cpu,omitempty"`
+	RaceBuild  bool              `json:"race_build,omitempty"`
+	AltBuild   bool              `json:"alt_build,omitempty"`
+	Env        map[string]string `json:"env,omitempty"` // environment switches of the harness that were on (cold-start faults, hostile entropy)
+	Case       json.RawMessage   `json:"case"`
 }
 
 type registered struct {
@@ -245,8 +252,8 @@ func (c *Check[C]) Execute(t *testing.T) {
 		if persist != "" {
 			// second run of a shard whose process was killed by the runtime: leave the case on disk before running it
 			raw, _ := json.Marshal(v)
-			rf := replayFile{Property: c.Property(), Check: c.Name, Case: raw, GOARCH: runtime.GOARCH, GOMAXPROCS: runtime.GOMAXPROCS(0),
-				RaceBuild: os.Getenv("VERIF_RACE_BUILD") == "1", AltBuild: os.Getenv("VERIF_ALT_BUILD") == "1", Class: "process-killed", Error: "the process was killed by the Go runtime (fatal error) while it ran this case"}
+			rf := replayFile{Property: c.Property(), Check: c.Name, Case: raw, GOARCH: runtime.GOARCH, GOMAXPROCS: runtime.GOMAXPROCS(0), NumCPU: runtime.NumCPU(),
+				RaceBuild: os.Getenv("VERIF_RACE_BUILD") == "1", AltBuild: os.Getenv("VERIF_ALT_BUILD") == "1", Env: harnessEnv(), Class: "process-killed", Error: "the process was killed by the Go runtime (fatal error) while it ran this case"}
 			out, _ := json.MarshalIndent(rf, "", " ")
 			_ = os.WriteFile(persist, append(out, '\n'), 0o644)
 		}
@@ -322,6 +329,20 @@ func (c *Check[C]) FuzzOne(t *testing.T, v C) {
 	t.Fatalf("%s: %v", c.Name, err)
 }
 
+// harnessEnv returns the process-level switches a replay must set again.
+func harnessEnv() map[string]string {
+	out := map[string]string{}
+	for _, k := range []string{"VERIF_COLD_OUTAGE", "VERIF_HOSTILE_ENTROPY"} {
+		if v := os.Getenv(k); v != "" {
+			out[k] = v
+		}
+	}
+	if len(out) == 0 {
+		return nil
+	}
+	return out
+}
+
 func writeReplay(property, check string, v any, err error) string {
 	dir := os.Getenv("VERIF_REPLAY_DIR")
 	if dir == "" {
@@ -329,7 +350,7 @@ func writeReplay(property, check string, v any, err error) string {
 	}
 	_ = os.MkdirAll(dir, 0o755)
 	raw, _ := json.Marshal(v)
-	rf := replayFile{Property: property, Check: check, Case: raw, GOARCH: runtime.GOARCH, GOMAXPROCS: runtime.GOMAXPROCS(0), RaceBuild: os.Getenv("VERIF_RACE_BUILD") == "1", AltBuild: os.Getenv("VERIF_ALT_BUILD") == "1"}
+	rf := replayFile{Property: property, Check: check, Case: raw, GOARCH: runtime.GOARCH, GOMAXPROCS: runtime.GOMAXPROCS(0), NumCPU: runtime.NumCPU(), RaceBuild: os.Getenv("VERIF_RACE_BUILD") == "1", AltBuild: os.Getenv("VERIF_ALT_BUILD") == "1", Env: harnessEnv()}
 	if err != nil {
 		rf.Error = err.Error()
 		var f *Failure
@@ -486,10 +507,84 @@ func (s *Stats) flush(shard int) {
 }
 
 // Main is the TestMain shared by all harness packages: oracle self-test first (exit 2 on failure).
+// ColdStart, when set (package pt sets it), calls every public API function once; Main runs it while the system randomness
+// source is failing when $VERIF_COLD_OUTAGE is set.
+var ColdStart func()
+
+type outageReader struct{}
+
+func (outageReader) Read([]byte) (int, error) {
+	return 0, errors.New("entropy source unavailable (scripted outage)")
+}
+
 func Main(m *testing.M) {
 	if err := ref.SelfTest(); err != nil {
 		fmt.Printf("VERIF-ORACLE-SELFTEST-FAILED %v\n", err)
 		os.Exit(2)
 	}
+	if mode := os.Getenv("VERIF_COLD_OUTAGE"); mode != "" && ColdStart != nil {
+		// This process starts in a broken environment: the first call of every API function happens while crypto/rand.Reader
+		// fails (mode 1), while the SHA-256 registered with package crypto is broken - its constructor panics - (mode 2), or
+		// both (mode 3); panics are recovered and nothing is demanded of these calls. Then the other fault is tried, the
+		// environment is repaired (a program can register the real SHA-256 again) and the checks run: a package that
+		// initialises something lazily on first use must not be poisoned for the rest of the process.
+		saved := rand.Reader
+		breakEntropy := func() { rand.Reader = outageReader{} }
+		breakHash := func() {
+			crypto.RegisterHash(crypto.SHA256, func() hash.Hash { panic("scripted: broken SHA-256 registration") })
+		}
+		repair := func() {
+			rand.Reader = saved
+			crypto.RegisterHash(crypto.SHA256, sha256.New)
+		}
+		switch mode {
+		case "1":
+			breakEntropy()
+			ColdStart()
+			breakHash()
+		case "2":
+			breakHash()
+			ColdStart()
+			breakEntropy()
+		default:
+			breakEntropy()
+			breakHash()
+		}
+		ColdStart()
+		repair()
+		fmt.Println("VERIF-COLD-OUTAGE done, mode", mode)
+	}
+	if os.Getenv("VERIF_HOSTILE_ENTROPY") == "1" {
+		// The ambient entropy is an input nobody lists: in this process crypto/rand.Reader delivers, for ever, 32-byte blocks
+		// equal to p, n, 0, 2^256-1, p-1, n-1, p+1, n+1, 2^255, 1, ... Functions that are specified as deterministic must not
+		// care (an implementation may blind its arithmetic with random masks; the result is still the specified one).
+		rand.Reader = &hostileEntropy{}
+		fmt.Println("VERIF-HOSTILE-ENTROPY installed")
+	}
 	os.Exit(m.Run())
+}
+
+type hostileEntropy struct {
+	mu  sync.Mutex
+	buf []byte
+	pos int
+}
+
+func (h *hostileEntropy) Read(p []byte) (int, error) {
+	h.mu.Lock()
+	defer h.mu.Unlock()
+	if h.buf == nil {
+		one := big.NewInt(1)
+		two256 := new(big.Int).Lsh(one, 256)
+		for _, v := range []*big.Int{ref.P, ref.N, new(big.Int), new(big.Int).Sub(two256, one), new(big.Int).Sub(ref.P, one), new(big.Int).Sub(ref.N, one),
+			new(big.Int).Add(ref.P, one), new(big.Int).Add(ref.N, one), new(big.Int).Lsh(one, 255), one, new(big.Int).Lsh(ref.P, 0), new(big.Int).Sub(two256, ref.P),
+			new(big.Int).Sub(two256, ref.N), new(big.Int).Rsh(ref.P, 1), ref.P, ref.P, ref.N, ref.N} {
+			h.buf = append(h.buf, ref.Bytes32(v)...)
+		}
+	}
+	for i := range p {
+		p[i] = h.buf[h.pos]
+		h.pos = (h.pos + 1) % len(h.buf)
+	}
+	return len(p), nil
 }
